@@ -203,11 +203,11 @@ plan("C14", "exploration",
 REAL_W5 = ("REAL: services/api/grpc (gRPC server, TLS 1.3 with RequireAndVerifyClientCert, request-id/source-ip/client-info interceptors), all five registered services' handlers and "
            "services behind them on a loopback port; the repository's own test certificates and authority; clients built with crypto/tls. No bubble, no scheduler: calls are sequential. STUB: DKG sender.")
 q, t = tiers(50, 120, 50, 300)
-q["layers"] = all_matrix_layers(70, 120)
-t["layers"] = all_matrix_layers(70, 300)
+q["layers"] = all_matrix_layers(75, 120, mw=15) + [dict(runs=10, budget_s=120, params="mode=conc")]
+t["layers"] = all_matrix_layers(75, 300, mw=15) + [dict(runs=200, budget_s=300, params="mode=conc")]
 q["exhaustive"] = t["exhaustive"] = True
 q["require_complete"] = t["require_complete"] = [("matrix_cases", "matrix_total")]
-q["require_probes"] = t["require_probes"] = ["untrusted_calls", "permitted_calls_served"]
+q["require_probes"] = t["require_probes"] = ["untrusted_calls", "permitted_calls_served", "concurrent_identity_requests"]
 plan("C19", "other",
      "complete table: server configuration {authority configured, no authority configured} x every method of the five registered gRPC services (16) x caller credential {plaintext, TLS without "
      "client certificate, self-signed with a permitted name, other authority with a permitted name, authority from the host trust store with a permitted name, certificate chained through a "
@@ -220,7 +220,7 @@ plan("C19", "other",
      assumptions=["Go crypto/tls and x509 verification are trusted", "the host trust store is pointed (SSL_CERT_FILE) at a generated foreign authority to cover servers that fall back to system roots"])
 
 q, t = tiers(150, 90, 6000, 1500)
-q["layers"] = [dict(runs=150, budget_s=90, params="")] * 14 + [dict(runs=150, budget_s=90, params="mode=free")] * 2
+q["layers"] = [dict(runs=150, budget_s=90, params="")] * 14 + [dict(runs=100, budget_s=90, params="mode=free")] * 2
 t["layers"] = [dict(runs=6000, budget_s=1500, params="")] * 14 + [dict(runs=2000, budget_s=1500, params="mode=free")] * 2
 q["require_probes"] = t["require_probes"] = ["canaries_served", "requests", "free_running_volleys"]
 plan("C20", "exploration",
@@ -239,6 +239,11 @@ for _p in ("C12", "C13", "C14", "C16", "C17"):
     PLANS[_p]["replay_attempts"] = 12
 # C03's kill and power layers run real child processes: what a SIGKILL leaves behind can depend on timing.
 PLANS["C03"]["replay_attempts"] = 6
+# Free-running layers (C15 deadlock detector, C19 two-client load, C20 volleys) are seeded in their workload, not in
+# their interleaving: a finding is reported only if it shows again within this many repetitions in a fresh process.
+PLANS["C15"]["replay_attempts"] = 6
+PLANS["C19"]["replay_attempts"] = 40
+PLANS["C20"]["replay_attempts"] = 6
 
 PERM_RULE = ("a seeded run draws a permission table (1-4 clients x 1-4 ordered entries; wallet patterns: literal, .*, prefix.*, class, alternation in both orders, own anchors, other case, group, optional "
              "char; account patterns likewise or empty; 1-3 operation items from All/None/op/~op in drawn order and case) over a population with near-miss names (Wallet1, Wallet10, Wallet2, xWallet2, "
